@@ -41,7 +41,7 @@ class Facts:
     def __init__(self, sc, recs, final, res):
         self.sc, self.recs, self.final, self.res = sc, recs, final, res
         self.end = res.get('end')
-        self.settled = any(r[2] == 'settled' for r in recs[-3:]) if recs else False
+        self.settled = any(r[2] == 'settled' for r in recs)
         self.last_seq = recs[-1][0] if recs else 0
         self.last_t = recs[-1][1] if recs else 0.0
         self.bus_cfg = {b['name']: b for b in sc['buses']}
@@ -69,12 +69,17 @@ class Facts:
         self.results_ops = []
         self.timeouts = {}  # ev -> event_timeout
         self.registered_at = {}  # handler index -> seq of its bus.on()
+        self.runloop_exits = []  # (seq, bus)
+        self.self_cancelled = []  # (seq, act): handler ended with CancelledError of its own making
         open_aw = {}
         open_pe = {}
         open_stop = {}
         open_idle = {}
         for r in recs:
             seq, t, k = r[0], r[1], r[2]
+            if k == 'teardown':
+                self.last_seq, self.last_t = seq, t
+                break
             if k == 'cut':
                 # records after the cut are teardown artefacts
                 self.last_seq, self.last_t = seq, t
@@ -84,6 +89,10 @@ class Facts:
                 self.etype[r[3]] = r[4]
                 self.sid[r[3]] = r[6]
                 self.timeouts[r[3]] = r[7]
+            elif k == 'runloop_exit':
+                self.runloop_exits.append((seq, r[3]))
+            elif k == 'raise_cancelled':
+                self.self_cancelled.append((seq, r[3]))
             elif k == 'register':
                 self.registered_at[r[3]] = seq
             elif k == 'disp':
